@@ -145,8 +145,10 @@ def check_natural(df, date, stats=None):
     if want:
         try:
             r2 = env.simulate(df, date, targets=sorted({x for _, (_, m) in want.items() for x in m.values()} | set(want)), rounding=True)
-        except Exception:  # noqa: BLE001
+        except Exception as e:  # noqa: BLE001
             r2 = None
+            fails.append(core.Failure(f"derived-variant-raises:{type(e).__name__}",
+                                      f"{date}: requesting the week/day variants of the rounded rules {sorted(want)[:4]}... raises {type(e).__name__}: {e!s:.160}"))
         if r2 is not None:
             for n, (u, m) in want.items():
                 base = r2[n].to_numpy().astype(float) * PER_Y[u]
